@@ -15,7 +15,7 @@ RULE = ("one case = one run (callback recording deep copies of every state) opti
         "checkpoint's counters after a restart). Non-trivial = run in which an accepted point was re-evaluated because it was not the last "
         "trial of its line search, or a restart chain of length >= 2; distinct = distinct specs")
 ASSUMPTIONS = ["harness closures are pure; the scaling factor is the value returned by the harness's scaler",
-               "for finite-difference modes only fun and nfev are compared (njev counts gradient computations, jac is an approximation)"]
+               "for finite-difference modes fun, nfev and njev (= number of differencing-routine invocations, counted by rebinding its module-level name) are compared; jac is an approximation and is not"]
 FAMS = gen.ALL_FAMILIES
 
 
@@ -36,7 +36,7 @@ def cases(tier, seed):
             "jac": gen.pick(rng, ["callable"] * 6 + [None, "2-point", "3-point"]),
             "maxcor": int(rng.integers(1, 11)),
             "maxls": int(gen.pick(rng, [2, 3, 4] if hard else [2, 3, 5, 20])),
-            "maxiter": int(gen.pick(rng, [2, 4, 8, 15, 30])),
+            "maxiter": int(gen.pick(rng, [0, 1, 2, 4, 8, 15, 30])),
             "maxfun": int(gen.pick(rng, [15, 60, 15000, 15000])),
             "ftol": float(gen.pick(rng, [0.0, 1e-12, 1e-6])),
             "gtol": 1e-8,
@@ -47,8 +47,33 @@ def cases(tier, seed):
         yield {"problem": ps, "cfg": cfg, "chain": chain}
 
 
-def judge_state(out, P, snap, s, mode, exp_nf, exp_ng, where, tags):
+_AD = [0, False]
+
+
+def install_ad_counter():
+    """Count gradient computations in finite-difference modes by rebinding the differencing routine's module-level name."""
+    import lbfgsb.scalar_function as S
+
+    if getattr(S, "_verif_ad_wrapped_c05", False):
+        return
+    orig = getattr(S, "approx_derivative", None)
+    if orig is None:
+        return
+
+    def counting(*a, **k):
+        _AD[0] += 1
+        return orig(*a, **k)
+
+    S.approx_derivative = counting
+    S._verif_ad_wrapped_c05 = True
+    _AD[1] = True
+
+
+def judge_state(out, P, snap, s, mode, exp_nf, exp_ng, where, tags, exp_fd_ng=None):
     """snap: deep copy of an OptimizeResult; exp_nf/exp_ng: expected counters."""
+    if mode != "callable" and exp_fd_ng is not None and snap["njev"] != exp_fd_ng:
+        out.violate("njev_mismatch", f"{where}: njev={snap['njev']} but {exp_fd_ng} finite-difference gradient computations were made (incl. checkpoint's)", **tags)
+        return
     if snap["njev"] == 0 and mode == "callable":
         out.count("skipped_no_gradient_yet")
         return
@@ -98,9 +123,15 @@ def run(spec):
     maxiter = cfg["maxiter"]
     nre = 0
     chain_len = 0
+    install_ad_counter()
+    base_fd = 0
     for step in range(1 + len(spec["chain"])):
         c = dict(cfg, maxiter=maxiter)
-        tr = probes.run_min(P, c, checkpoint=ck, x0=x0)
+        ad0 = _AD[0]
+        cb_ad = []
+        hooks = {"on_cb": (lambda i, xk, st: cb_ad.append(_AD[0] - ad0) and False)}
+        tr = probes.run_min(P, c, checkpoint=ck, x0=x0, hooks=hooks)
+        ad_total = _AD[0] - ad0
         out.count("runs")
         if tr.exc is not None:
             out.count("runs_raised")
@@ -112,7 +143,8 @@ def run(spec):
         where = f"{P.spec['family']} n={P.n} step={step}"
         for i, rec in enumerate(tr.cb):
             out.count("states_checked")
-            judge_state(out, P, rec["snap"], s, mode, base_nf + rec["nf"], base_ng + rec["ng"], f"{where} callback#{i}", dict(tags, where="callback"))
+            judge_state(out, P, rec["snap"], s, mode, base_nf + rec["nf"], base_ng + rec["ng"], f"{where} callback#{i}", dict(tags, where="callback"),
+                        exp_fd_ng=(base_fd + cb_ad[i]) if (_AD[1] and mode != "callable" and i < len(cb_ad)) else None)
             if out.violations:
                 break
         if out.violations:
@@ -120,7 +152,10 @@ def run(spec):
         out.count("results_checked")
         if step > 0:
             out.count("restarts_checked")
-        judge_state(out, P, tr.snap, s, mode, base_nf + tr.nf, base_ng + tr.ng, f"{where} result", dict(tags, where="result", restart=step > 0))
+        judge_state(out, P, tr.snap, s, mode, base_nf + tr.nf, base_ng + tr.ng, f"{where} result", dict(tags, where="result", restart=step > 0),
+                    exp_fd_ng=(base_fd + ad_total) if (_AD[1] and mode != "callable") else None)
+        if mode != "callable":
+            out.count("fd_njev_checked")
         if out.violations:
             break
         nre += reevaluated(tr)
@@ -128,6 +163,7 @@ def run(spec):
             ck = tr.result
             x0 = np.array(tr.result.x, dtype=float, copy=True)
             base_nf, base_ng = int(tr.result.nfev), int(tr.result.njev)
+            base_fd = int(tr.result.njev)
             maxiter = int(tr.result.nit) + spec["chain"][step]
             chain_len += 1
     out.count("accepted_not_last_trial", nre)
